@@ -416,6 +416,18 @@ fn big_check(kind: &str, len: usize, seed: u64, hand: bool) -> BigResult {
     let mut r = BigResult { failures: vec![], checks: 0, notes: vec![] };
     let within = len <= L;
     let t0 = Instant::now();
+    // the hex field: a payload within the limit submitted as hex selects exactly its bytes (what the base64 field
+    // of the same payload decodes to is checked below against the same bytes)
+    if within {
+        let h = RawBytes::from_bytes(x.clone().into()).to_string();
+        r.checks += 1;
+        match sel(&Some(Some(h)), &None) {
+            Ok(Ok(Some(y))) if y == x => {}
+            Err(()) => r.failures.push(("panic: select_bytes panics on the hex field of a big payload".into(), d.clone())),
+            other => r.failures.push((format!("hex/base64: the hex field of a payload of {} bytes (within the limit) does not select the payload's bytes but {}", len,
+                match other { Ok(Ok(None)) => "no payload at all".to_string(), Ok(Ok(Some(y))) => format!("{} other bytes", y.len()), Ok(Err(e)) => format!("the error {}", e), Err(()) => unreachable!() }), d.clone())),
+        }
+    }
     r.checks += 1;
     match enc(&x) {
         Err(()) => r.failures.push(("panic: from_bytes panics".into(), d.clone())),
@@ -654,7 +666,7 @@ pub fn run(out: &Path, seed: u64, thorough: bool) -> Result<(), Box<dyn std::err
         for &n in &sizes { tasks.push((kind.to_string(), n, seed, true)); }
     }
     for n in (L - 36)..=(L - 30) { tasks.push(("random-nonzero".into(), n, seed, false)); } // where the encoder starts to fail
-    for n in [L / 2, L - 1000, L - 100] { tasks.push(("random".into(), n, seed, false)); tasks.push(("sparse-zero-runs".into(), n, seed, false)); }
+    for n in [L / 2 - 2, L / 2 - 1, L / 2, L / 2 + 1, 600 * 1024, L - 1000, L - 100] { tasks.push(("random".into(), n, seed, false)); tasks.push(("sparse-zero-runs".into(), n, seed, false)); }
     if thorough {
         for s in 1..=6u64 { for &n in &sizes { tasks.push(("sparse-zero-runs".into(), n, seed + s, true)); tasks.push(("random".into(), n, seed + s, true)); } }
         for _ in 0..40 { let n = rng.range(1, L as u64 + 4096) as usize; let k = *rng.pick(&["random", "zero-heavy", "sparse-zero-runs", "pattern", "random-nonzero"]); tasks.push((k.to_string(), n, rng.next(), true)); }
